@@ -169,6 +169,48 @@ func VerifC11ImportGuards(scenario int) {
 	verif_reach("C11.guard.ok")
 }
 
+// VerifC11Isolation: the keys cached for one purpose never answer for another. A multi-member group whose identifier
+// is chosen by somebody else (FREE 32 bytes: it may equal a contact's account key) is used on store A before (order 0) or
+// after (order 1) A derives its contact group with B. The contact group is still the one B derives for A, and A's member
+// key for that group is still the one every device of A's account derives (a fresh store with A's exported keys).
+func VerifC11Isolation(order int) {
+	a := verifNewStore("A", 2)
+	b := verifNewStore("B", 2)
+	pa, pb := verifAcctPub(a), verifAcctPub(b)
+	gpk := verif_anyBytes("group-id")
+	verif_assume(len(gpk) == 32)
+	sec := make([]byte, 32)
+	_, _ = verifRand(sec)
+	g := &protocoltypes.Group{PublicKey: gpk, Secret: sec, GroupType: protocoltypes.GroupType_GroupTypeMultiMember}
+	var md OwnMemberDevice
+	var err error
+	if order == 0 {
+		md, err = a.GetOwnMemberDeviceForGroup(g)
+		if err != nil {
+			return // not a usable group identifier
+		}
+	}
+	gab, e1 := a.GetGroupForContact(pb)
+	gba, e2 := b.GetGroupForContact(pa)
+	verif_assert(e1 == nil && e2 == nil && verifSameGroup(gab, gba), "C11.iso: the contact group is the same on both sides whatever other groups were used before")
+	if order == 1 {
+		md, err = a.GetOwnMemberDeviceForGroup(g)
+		if err != nil {
+			return
+		}
+	}
+	ak, pk, err := a.ExportAccountKeysForBackup()
+	verif_assume(err == nil)
+	a2 := verifNewStore("A2", 2)
+	verif_assume(a2.ImportAccountKeys(ak, pk) == nil)
+	md2, err := a2.GetOwnMemberDeviceForGroup(g)
+	verif_assert(err == nil, "C11.iso: the other device can use the group too")
+	if err == nil {
+		verif_assert(md.Member().Equals(md2.Member()), "C11.iso: the member key of a group is the one every device of the account derives, whatever contacts were derived before")
+	}
+	verif_reach("C11.iso.ok")
+}
+
 func VerifC11Witness() {
 	a := verifNewStore("A", 2)
 	b := verifNewStore("B", 2)
